@@ -220,6 +220,8 @@ fn explore(cx: &mut Ctx, rng: &mut Rng) {
         misplaced_construct_cases(thorough, &mut sink);
         format_width_cases(thorough, &mut sink);
         packed_args_cases(thorough, &mut sink);
+        container_reentrancy_cases(&sweep.eps, thorough, &mut sink);
+        iterator_invalidation_cases(thorough, &mut sink);
     }
     if let Some(f) = &only {
         cases.retain(|c| c.apis.iter().any(|a| a.contains(f.as_str())));
@@ -255,6 +257,8 @@ fn explore(cx: &mut Ctx, rng: &mut Rng) {
         misplaced_construct_cases(thorough, &mut sink);
         format_width_cases(thorough, &mut sink);
         packed_args_cases(thorough, &mut sink);
+        container_reentrancy_cases(&sweep.eps, thorough, &mut sink);
+        iterator_invalidation_cases(thorough, &mut sink);
     }
     let cases = std::mem::take(&mut b.buf);
     eprintln!("[c06] control-flow / register-pressure / iterator-reentrancy cases: {}", cases.len());
